@@ -128,6 +128,7 @@ type Exec struct {
 	loopBody map[*ssa.BasicBlock]bool // body of the loop whose head is being havocked (nil: a call)
 	beforeHits map[int]int // before clause index -> number of calls it applied to
 	pruned     int         // branches dropped in a variant run (infeasible under the variant's assumption)
+	plan       *replayPlan // how to rebuild the function's inputs from a model (replay.go)
 	chanHits map[string]int // before_send / assume_recv clause -> number of communications it applied to
 	atReturnHits map[int]int // at_return clause index -> number of returns it was evaluated at
 	callExcept []string // the same for the call being havocked for
